@@ -39,6 +39,9 @@ func (m *ModelServer) ListConsumables(_ context.Context, request *traits.ListCon
 	}
 
 	lastKey := pageToken.GetLastResourceName() // the key() of the last item we sent
+	if request.GetPageSize() < 0 {
+		return nil, status.Error(codes.InvalidArgument, "page_size must not be negative")
+	}
 	pageSize := capPageSize(int(request.GetPageSize()))
 
 	sortedItems := m.model.ListConsumables(resource.WithReadMask(request.ReadMask))
@@ -117,6 +120,9 @@ func (m *ModelServer) ListInventory(_ context.Context, request *traits.ListInven
 	}
 
 	lastKey := pageToken.GetLastResourceName() // the key() of the last item we sent
+	if request.GetPageSize() < 0 {
+		return nil, status.Error(codes.InvalidArgument, "page_size must not be negative")
+	}
 	pageSize := capPageSize(int(request.GetPageSize()))
 
 	sortedItems := m.model.ListInventory(resource.WithReadMask(request.ReadMask))
